@@ -33,7 +33,7 @@ func (a *analysis) nodeStr(g *cfg, n *node) string {
 	case kGuard:
 		return fmt.Sprintf("guard %s nn:%d nil:%d", v(n.x), n.s1.id, n.s2.id)
 	case kTypeTest:
-		return fmt.Sprintf("%s := typetest %s iface=%v ok:%d fail:%d", v(n.x), v(n.y), n.toIface, n.s1.id, n.s2.id)
+		return fmt.Sprintf("%s := typetest %s iface=%v type=%d ok:%d fail:%d", v(n.x), v(n.y), n.toIface, n.ptype, n.s1.id, n.s2.id)
 	case kUse:
 		return fmt.Sprintf("use %s [%s] -> %d", v(n.x), n.site.key, n.s1.id)
 	case kStore:
@@ -55,6 +55,8 @@ func (a *analysis) nodeStr(g *cfg, n *node) string {
 			as = append(as, a.opStr(g, op))
 		}
 		return "ret " + strings.Join(as, ",")
+	case kHalt:
+		return "halt (parse error recorded)"
 	}
 	return "?"
 }
